@@ -617,6 +617,27 @@ def french():
                   ("lemma_fr_million", "million"), ("lemma_fr_millions", "millions"), ("lemma_fr_milliard", "milliard"), ("lemma_fr_milliards", "milliards"),
                   ("lemma_fr_et", "et"), ("lemma_fr_zero", "zéro"), ("lemma_fr_virgule", "virgule")]:
         one(nm, w)
+    # ordinal counterparts of the words a cardinal can end with (for the ordinal theorem: last word swapped)
+    pairs = [(cw, ow) for cw, ow, _ in units] + [(cw, ow) for cw, ow, _ in teens] + [(cw, ow) for cw, ow, _ in tens if cw in ("trente", "quarante", "cinquante", "soixante")] \
+        + [("vingt", "vingtième"), ("vingts", "vingtième"), ("cent", "centième"), ("cents", "centième"), ("mille", "millième")]
+    d.append("/// the -ième form of a word a cardinal can end with (any other word: itself)")
+    d.append("pub open spec fn fr_ord_form(w: Seq<char>) -> Seq<char> { " + " else ".join(f"if w == {W(cw)} {{ {W(ow)} }}" for cw, ow in pairs) + " else { w } }")
+    d.append("pub open spec fn fr_ends_card(w: Seq<char>) -> bool { " + " || ".join(f"w == {W(cw)}" for cw, ow in pairs) + " }")
+    d.append("/// a cardinal's last word and its -ième form have the same grammar row but for the marker: where the one is accepted so is the other,")
+    d.append("/// with the same digits and flags, the ordinal marker set and the number closed")
+    d.append("pub proof fn lemma_fr_ord_swap(w: Seq<char>, o: DsView)")
+    d.append("    requires fr_ends_card(w), fr_model(w, o).ok")
+    d.append("    ensures fr_model(fr_ord_form(w), o).ok, !fr_ord_form(w).contains('-'),")
+    d.append("            same(fr_model(fr_ord_form(w), o).v, DsView { marker: fr_marker_of_kind(1), frozen: true, ..fr_model(w, o).v })")
+    d.append("{")
+    for cw, ow in pairs:
+        d.append(f"    if w == {W(cw)} {{ {c}_rows_{modof[cw]}::lemma_{c}_row_{wname(cw)}(o); {c}_rows_{modof[ow]}::lemma_{c}_row_{wname(ow)}(o); fr_ne_{wname(lemma_of(cw))}(); }}")
+    d.append("}")
+    d.append("pub proof fn lemma_fr_card_plain(w: Seq<char>) requires fr_ends_card(w) ensures !w.contains('-') {")
+    for cw, ow in pairs:
+        d.append(f"    if w == {W(cw)} {{ {c}_rows_{modof[cw]}::lemma_{c}_row_{wname(cw)}(fresh_view()); }}")
+    d.append("}")
+    d.append(f"pub proof fn lemma_fr_premier(o: DsView) ensures {row_stmt(byw['premier'])} {{ {c}_rows_{modof['premier']}::lemma_{c}_row_premier(o); }}")
     d.append(f"pub proof fn lemma_fr_link_sep() ensures {W('et')} != {W('virgule')} {{ fr_ne_virgule(); }}")
     open(os.path.join(T, "fr_dispatch.inc"), "w", encoding="utf-8").write("\n".join(d) + "\n")
     print(c + ":", len(arms), "arms,", len(rows), "rows,", len(allwords), "words")
